@@ -483,7 +483,11 @@ Arguments o_genv {W}. Arguments o_plain {W}. Arguments o_plan {W}. Arguments o_w
 
 Definition zlen {A} (l : list A) : Z := Z.of_nat (List.length l).
 (* contract.GetOp(pc): a byte of the code, STOP past its end *)
-Definition code_at (c : list Z) (pc : Z) : Z := if pc <? 0 then 0 else (nth (Z.to_nat pc) c 0) mod 256.
+Definition code_at (c : list Z) (pc : Z) : Z :=
+  if (pc <? 0) || (zlen c <=? pc) then 0 else (nth (Z.to_nat pc) c 0) mod 256.
+(* the bounds test comes first: no unary number proportional to a pc or an operand is ever built *)
+Definition zskipn {A} (n : Z) (l : list A) : list A :=
+  if n <? 0 then l else if zlen l <=? n then [] else skipn (Z.to_nat n) l.
 (* exactly n stack slots (uint256 values) out of whatever the oracle answered *)
 Definition fit (n : Z) (l : list Z) : list Z := map (fun x => x mod W256) (firstn (Z.to_nat n) (l ++ repeat 0 (Z.to_nat n))).
 
